@@ -79,6 +79,10 @@ end
 
 def greedyFuel : Nat := 48
 
+def Fields.isNil : Fields → Bool
+  | .nil => true
+  | _ => false
+
 def Ty.isPtr : Ty → Bool
   | .ptr _ _ => true
   | _ => false
@@ -138,9 +142,9 @@ def wfFields (env : Env) : Fields → Bool
     (match ft, t with
       | .plain, .magic (some tg) => tg.ok
       | _, .magic _ => false
-      | .plain, t => wfb env t && (!greedyb env greedyFuel t || rest matches .nil)
+      | .plain, t => wfb env t && (!greedyb env greedyFuel t || rest.isNil)
       | .ref, t => wfRefOf t (wfb env t)
-      | .maybe, .ptr _ t => wfb env t && (!greedyb env greedyFuel t || rest matches .nil)
+      | .maybe, .ptr _ t => wfb env t && (!greedyb env greedyFuel t || rest.isNil)
       | .maybeRef, .ptr m t => wfRefOf (.ptr m t) (wfb env t)
       | _, _ => false) && wfFields env rest
 def wfCtors (env : Env) : Ctors → Bool
